@@ -1,7 +1,7 @@
 'use strict'
 // C08 — every output is valid JavaScript of the same kind as the input.
 const { mk } = require('../lib/static_driver')
-const { enumerate } = require('../lib/explore')
+const { enumerate, addStats } = require('../lib/explore')
 const F = require('../grammar/families')
 const { v8compile, trailerInfo } = require('../oracles/v8parse')
 
@@ -40,7 +40,10 @@ module.exports = mk({
     const ops = (tier === 'thorough' ? F.REP_OPS : F.REP_OPS_Q).map((o) => o.tpl)
     const r = enumerate([{ name: 'ctx', symbols: CONTEXTS, free: true }, { name: 'op', symbols: ops, free: true }, { name: 'config', symbols: ['FULL', 'COMMENTS'], free: true }], {})
     const leaves = r.leaves.map((l) => ({ fam: 'syntax', key: 'syn¦' + l.pick.ctx + '¦' + l.pick.op + '¦' + l.pick.config, code: l.pick.ctx.split('@@').join(l.pick.op), config: l.pick.config, desc: 'syntax ctx' }))
-    return { leaves, stats: r.stats }
+    // inputs that mention identifiers with the reserved prefix: either refused, or the content must still load
+    const e = require('./C06.js').familyE()
+    for (const l of e.leaves) leaves.push(Object.assign({}, l, { fam: 'reserved', desc: 'reserved-name ' + l.place }))
+    return { leaves, stats: addStats(r.stats, e.stats) }
   },
   requests (leaf) {
     const S = require('../lib/static_driver')
